@@ -5,7 +5,7 @@
   "C07"
  ],
  "level": "U/k",
- "tier": "wip",
+ "tier": "quick",
  "harness": "h_initialize_geometry_1k",
  "defines": [
   "EXT2_CUSTOM_MEMORY_ROUTINES"
@@ -22,7 +22,8 @@
  ],
  "assumes": [
   "WHAT IS EXECUTED: the real ext2fs_initialize from its entry to the first allocation that FOLLOWS the geometry computation (the bitmap label buffer, ext2fs_get_mem #4), which the harness makes fail: the function then runs its cleanup path and the ext2fs_free stub takes a snapshot of the superblock / handle; everything up to the comment 'At this point we know how big the filesystem will be' plus the sparse_super2 backup-group normalisation is covered, NOTHING after it (group loop: geometry/initialize_group_accounting); later code does not assign the fields checked here",
-  "configuration of this unit, stored as CONSTANTS: 1 KiB blocks, 32-byte descriptors (no 64bit), requested s_blocks_per_group 0 (default 8192), no bigalloc; SYMBOLIC: requested blocks count (1 .. 2^28), inode size 128 or 256 (dynamic revision), requested inode count 0 (default: one inode per 4 KiB) or 1 .. (groups - 1) * 8192 (at most a bitmap's worth per group even after the last group is dropped: otherwise the code shrinks s_blocks_per_group by 8 and retries up to thousands of times, out of reach of unwinding), features: any subset of filetype, meta_bg, flex_bg (with s_log_groups_per_flex), extents, resize_inode, sparse_super, sparse_super2 (with arbitrary s_backup_bgs), large_file, huge_file, gdt_csum, metadata_csum, dir_index, has_journal, ext_attr; s_first_meta_bg, s_reserved_gdt_blocks (0 = computed), s_r_blocks_count 0, s_first_data_block 0 (= default)",
+  "NEEDS the hook in hooks-pending/c07b.diff: the named GHOST anchor VERIF_GHOST_INITIALIZE_INODES_COUNT right after 'super->s_inodes_count = super->s_inodes_per_group * fs->group_desc_count' (add-only; default empty in initialize.c's own guarded preamble). The unit's ghost statement records, AT that point, the three values and the truth of 's_inodes_count == ipg * groups' and of 'the 64-bit product fits 32 bits' written with the code's own operands (the expressions are then syntactically the code's: no multiplier equivalence is left to the SAT solver, which does not finish on it otherwise); the harness checks that the final superblock still carries exactly those three values",
+  "configuration of this unit, stored as CONSTANTS: 1 KiB blocks, 32-byte descriptors (no 64bit), requested s_blocks_per_group 0 (default 8192), no bigalloc; SYMBOLIC: requested blocks count (1 .. 2^28), inode size 128 or 256 (dynamic revision), requested inode count 0 (default: one inode per 4 KiB) or 1 .. min(2^31, (groups - 1) * 8192) (at most a bitmap's worth per group even after the last group is dropped: otherwise the code shrinks s_blocks_per_group by 8 and retries up to thousands of times, out of reach of unwinding), features: any subset of filetype, meta_bg, flex_bg (with s_log_groups_per_flex), extents, resize_inode, sparse_super, sparse_super2 (with arbitrary s_backup_bgs), large_file, huge_file, gdt_csum, metadata_csum, dir_index, has_journal, ext_attr; s_first_meta_bg, s_reserved_gdt_blocks (0 = computed), s_r_blocks_count 0, s_first_data_block 0 (= default)",
   "what is proved (specs/mkfs_geom.h), on reaching the end of the geometry computation: block size / cluster size / first data block as the format prescribes; blocks per group = clusters per group = 8192 <= 8 * blocksize; the final blocks count is <= the requested one and differs from it by less than one group (only a short last group is dropped); group count = ceil((blocks - first data block) / blocks per group) >= 1; the last group is either full or holds at least its own overhead (bitmaps, inode table, and - if it has a superblock copy as answered by the ext2fs_bg_has_super stub / s_backup_bgs - the copy, descriptor blocks and reserved GDT blocks) + 50 blocks; EVERY group can hold the worst-case overhead 3 + inode table + reserved GDT + descriptor blocks (1 with meta_bg) <= blocks per group; inodes per group is a multiple of 8, 8 <= ipg <= 8 * blocksize and ipg <= 65536 - inodes per block; inode table blocks = ceil(ipg * inode size / blocksize); s_inodes_count = groups * ipg without 32-bit overflow, >= first_ino + 1, = s_free_inodes_count; descriptor blocks = ceil(groups / (blocksize / 32)); reserved GDT blocks <= blocksize / 4, 0 without resize_inode; meta_bg is switched on (and resize_inode off, reserved GDT 0) exactly when descriptor + reserved GDT blocks exceed 3/4 of a group; sparse_super2: both backup groups < groups, ordered, equal only as (0,0)/(x,0) normalisation. Error returns are EXT2_ET_TOOSMALL / TOO_MANY_INODES / INVALID_ARGUMENT / RES_GDT_BLOCKS / (UN)SUPP_FEATURE only",
   "NOT proved here (left to the residual): 'at least as many inodes as requested' (needs the quotient semantics of the symbolic division inodes / groups), bigalloc, s_blocks_per_group given by the user, 64 KiB blocks, the reserved-blocks ratio recomputation (double arithmetic; s_r_blocks_count = 0 here), more than 2^28 blocks",
   "stubs: typed memory routines handing out static objects (handle, name, superblock; the 4th request fails), io manager open, getenv (no SOURCE_DATE_EPOCH), ext2fs_bg_has_super (arbitrary answer, logged: the last-group check is stated for the answer given), block count accessors over ghost variables (blknum.c), ext2fs_free (snapshot)"
@@ -32,13 +33,13 @@
 */
 /* VERIF-UNIT
 {
- "name": "initialize_geometry_1k_inodes_count",
+ "name": "initialize_geometry_4k",
  "props": [
   "C07"
  ],
  "level": "U/k",
- "tier": "wip",
- "harness": "h_initialize_geometry_1k_inodes_count",
+ "tier": "quick",
+ "harness": "h_initialize_geometry_4k",
  "defines": [
   "EXT2_CUSTOM_MEMORY_ROUTINES"
  ],
@@ -53,10 +54,121 @@
   "lib/ext2fs/initialize.c:calc_reserved_gdt_blocks"
  ],
  "assumes": [
-  "as initialize_geometry_1k, but ONLY the clause 's_inodes_count = groups * inodes per group without 32-bit overflow' is checked, with the SMT back end cvc5: the clause equates the code's 32x32-bit product with the specification's product over copies of the operands, a multiplier equivalence the SAT back ends do not finish (> 60 s for the single obligation) and congruence closure decides at once"
+  "as initialize_geometry_1k with the configuration constants: 4 KiB blocks, 32-byte descriptors (no 64bit), default s_blocks_per_group 32768"
  ],
- "native": false,
- "backend": "cvc5"
+ "native": false
+}
+*/
+/* VERIF-UNIT
+{
+ "name": "initialize_geometry_4k_64bit",
+ "props": [
+  "C07"
+ ],
+ "level": "U/k",
+ "tier": "quick",
+ "harness": "h_initialize_geometry_4k_64bit",
+ "defines": [
+  "EXT2_CUSTOM_MEMORY_ROUTINES"
+ ],
+ "unwind": 4,
+ "unwindset": {
+  "strlen.0": 4,
+  "strcpy.0": 4
+ },
+ "unwind_reason": "the geometry prefix of ext2fs_initialize has two backward gotos: 'retry' (taken at most once under the unit's assumptions: when the short last group is dropped; the second pass has no remainder) and 'ipg_retry' (taken at most twice: a filesystem with fewer than first_ino + 1 inodes gets 8 more per group; the 2^32 overflow branch needs more than 2^31 blocks); bound 4 with unwinding assertions on; strlen/strcpy run on the one-character device name",
+ "functions": [
+  "lib/ext2fs/initialize.c:ext2fs_initialize",
+  "lib/ext2fs/initialize.c:calc_reserved_gdt_blocks"
+ ],
+ "assumes": [
+  "as initialize_geometry_1k with the configuration constants: 4 KiB blocks, 64bit feature with 64-byte descriptors (s_desc_size 0 = default), default s_blocks_per_group 32768"
+ ],
+ "native": false
+}
+*/
+/* VERIF-UNIT
+{
+ "name": "initialize_geometry_1k_64bit",
+ "props": [
+  "C07"
+ ],
+ "level": "U/k",
+ "tier": "quick",
+ "harness": "h_initialize_geometry_1k_64bit",
+ "defines": [
+  "EXT2_CUSTOM_MEMORY_ROUTINES"
+ ],
+ "unwind": 4,
+ "unwindset": {
+  "strlen.0": 4,
+  "strcpy.0": 4
+ },
+ "unwind_reason": "the geometry prefix of ext2fs_initialize has two backward gotos: 'retry' (taken at most once under the unit's assumptions: when the short last group is dropped; the second pass has no remainder) and 'ipg_retry' (taken at most twice: a filesystem with fewer than first_ino + 1 inodes gets 8 more per group; the 2^32 overflow branch needs more than 2^31 blocks); bound 4 with unwinding assertions on; strlen/strcpy run on the one-character device name",
+ "functions": [
+  "lib/ext2fs/initialize.c:ext2fs_initialize",
+  "lib/ext2fs/initialize.c:calc_reserved_gdt_blocks"
+ ],
+ "assumes": [
+  "as initialize_geometry_1k with the configuration constants: 1 KiB blocks, 64bit feature with 64-byte descriptors (s_desc_size 0 = default), default s_blocks_per_group 8192"
+ ],
+ "native": false
+}
+*/
+/* VERIF-UNIT
+{
+ "name": "initialize_geometry_1k_g256",
+ "props": [
+  "C07"
+ ],
+ "level": "U/k",
+ "tier": "quick",
+ "harness": "h_initialize_geometry_1k_g256",
+ "defines": [
+  "EXT2_CUSTOM_MEMORY_ROUTINES"
+ ],
+ "unwind": 4,
+ "unwindset": {
+  "strlen.0": 4,
+  "strcpy.0": 4
+ },
+ "unwind_reason": "the geometry prefix of ext2fs_initialize has two backward gotos: 'retry' (taken at most once under the unit's assumptions: when the short last group is dropped; the second pass has no remainder) and 'ipg_retry' (taken at most twice: a filesystem with fewer than first_ino + 1 inodes gets 8 more per group; the 2^32 overflow branch needs more than 2^31 blocks); bound 4 with unwinding assertions on; strlen/strcpy run on the one-character device name",
+ "functions": [
+  "lib/ext2fs/initialize.c:ext2fs_initialize",
+  "lib/ext2fs/initialize.c:calc_reserved_gdt_blocks"
+ ],
+ "assumes": [
+  "as initialize_geometry_1k with the configuration constants: 1 KiB blocks, 32-byte descriptors, REQUESTED s_blocks_per_group 256 (mke2fs -g 256, the smallest mke2fs accepts): up to 2^20 groups, so the descriptor table outgrows 3/4 of a group and the library switches meta_bg on (canary meta_bg_forced); requested inode count 0 or 1 .. (groups - 1) * 8192"
+ ],
+ "native": false
+}
+*/
+/* VERIF-UNIT
+{
+ "name": "initialize_geometry_1k_requested_inodes",
+ "props": [
+  "C07"
+ ],
+ "level": "U/k",
+ "tier": "obs",
+ "harness": "h_initialize_geometry_1k_requested_inodes",
+ "defines": [
+  "EXT2_CUSTOM_MEMORY_ROUTINES"
+ ],
+ "unwind": 4,
+ "unwindset": {
+  "strlen.0": 4,
+  "strcpy.0": 4
+ },
+ "unwind_reason": "the geometry prefix of ext2fs_initialize has two backward gotos: 'retry' (taken at most once under the unit's assumptions: when the short last group is dropped; the second pass has no remainder) and 'ipg_retry' (taken at most twice: a filesystem with fewer than first_ino + 1 inodes gets 8 more per group; the 2^32 overflow branch needs more than 2^31 blocks); bound 4 with unwinding assertions on; strlen/strcpy run on the one-character device name",
+ "functions": [
+  "lib/ext2fs/initialize.c:ext2fs_initialize",
+  "lib/ext2fs/initialize.c:calc_reserved_gdt_blocks"
+ ],
+ "assumes": [
+  "as initialize_geometry_1k, but ONLY the clause 'there are at least as many inodes as requested' (code comment: 'There should be at least as many inodes as the user requested') is checked. EXPECTED TO FAIL: with fewer than 8 inodes per block (inode size 256 in 1 KiB blocks) the final 's_inodes_per_group &= ~7' rounds DOWN after the round-up to whole inode-table blocks: mke2fs -b 1024 -I 256 -N 56 on 2 groups gives 48 inodes (28 -> 24 per group). The filesystem is consistent; the requested geometry is missed by up to 4 inodes per group (findings/C07_mk_fewer_inodes_than_requested). For 4 KiB blocks (16 or 32 inodes per block) the clause is true but out of reach of the solvers (symbolic division inodes / groups: no answer in 280 s)"
+ ],
+ "native": false
 }
 */
 #include "verif.h"
@@ -71,6 +183,26 @@ struct in_s IN;
 #include "verif_in.h"
 
 unsigned long long verif_k;
+
+/* ghost record taken by the named anchor right after the assignment of s_inodes_count */
+static struct { unsigned int seen, eq, fits, cnt, ipg, gdc; } GI;
+#define VERIF_GHOST_INITIALIZE_INODES_COUNT \
+	GI.seen = 1; GI.cnt = super->s_inodes_count; GI.ipg = super->s_inodes_per_group; GI.gdc = fs->group_desc_count; \
+	GI.eq = (super->s_inodes_count == super->s_inodes_per_group * fs->group_desc_count); \
+	GI.fits = !((__u64)super->s_inodes_per_group * fs->group_desc_count > ~0U);
+
+/* EXT2_CUSTOM_MEMORY_ROUTINES: ext2fs.h then declares nothing; without prototypes the int argument SUPERBLOCK_SIZE would be
+ * passed to an implicitly declared function */
+#include "config.h"
+#include "ext2_fs.h"
+#include "ext2fs.h"
+errcode_t ext2fs_get_mem(unsigned long size, void *ptr);
+errcode_t ext2fs_get_memzero(unsigned long size, void *ptr);
+errcode_t ext2fs_get_array(unsigned long count, unsigned long size, void *ptr);
+errcode_t ext2fs_get_arrayzero(unsigned long count, unsigned long size, void *ptr);
+errcode_t ext2fs_free_mem(void *ptr);
+errcode_t ext2fs_resize_mem(unsigned long old_size, unsigned long size, void *ptr);
+errcode_t ext2fs_resize_array(unsigned long old_count, unsigned long count, unsigned long size, void *ptr);
 
 #include "lib/ext2fs/initialize.c"
 
@@ -88,6 +220,7 @@ static struct {
 	unsigned int gdc, desc_blocks, ibpg, blocksize;
 	int cluster_ratio_bits;
 	unsigned long long snap_blocks;
+	unsigned int req_reached, canary;
 } G;
 
 /* ---- typed memory routines */
@@ -143,7 +276,7 @@ errcode_t ext2fs_allocate_inode_bitmap(ext2_filsys fs, const char *descr, ext2fs
 #define SPARSE_SUPER2	0x0200u
 #define META_BG		0x0010u
 
-static void run(const unsigned int log_bs, const unsigned int dsize, const int product_clause_only)
+static void run(const unsigned int log_bs, const unsigned int dsize, const int requested_clause_only, const unsigned int bpg_param)
 {
 	const unsigned int bs = 1024u << log_bs;
 	ext2_filsys fs = 0;
@@ -151,6 +284,7 @@ static void run(const unsigned int log_bs, const unsigned int dsize, const int p
 	LOAD_IN();
 	memset(&PARAM, 0, sizeof(PARAM));
 	memset(&G, 0, sizeof(G));
+	memset(&GI, 0, sizeof(GI));
 	MGR.open = stub_open;
 	PARAM.s_log_block_size = log_bs;
 	PARAM.s_rev_level = EXT2_DYNAMIC_REV;
@@ -165,11 +299,13 @@ static void run(const unsigned int log_bs, const unsigned int dsize, const int p
 	PARAM.s_backup_bgs[1] = IN.bbg[1];
 	PARAM.s_inodes_count = IN.inodes;
 	const unsigned int isize = IN.isize256 ? 256 : 128;
-	const unsigned int fdb = MKFS_FDB(bs, 0), bpg0 = 8 * bs;
+	PARAM.s_blocks_per_group = bpg_param;
+	const unsigned int fdb = MKFS_FDB(bs, 0), bpg0 = bpg_param ? bpg_param : 8 * bs;	/* bpg_param <= 8 * bs in every unit */
 	ASSUME(IN.blocks >= 1 && IN.blocks <= (1ULL << 28));
 	/* the group count the requested size would give (constant divisor) */
 	unsigned long long gdc0 = IN.blocks > fdb ? (IN.blocks - fdb + bpg0 - 1) / bpg0 : 0;
 	ASSUME(IN.inodes == 0 || (gdc0 >= 2 && IN.inodes <= (gdc0 - 1) * 8 * bs));
+	ASSUME(IN.inodes <= (1u << 31));	/* far from the 2^32 limit: the 'ipg--' retry (one inode per group at a time) is not taken */
 
 	errcode_t r = ext2fs_initialize("d", 0, &PARAM, &MGR, &fs);
 
@@ -179,9 +315,10 @@ static void run(const unsigned int log_bs, const unsigned int dsize, const int p
 		unsigned long long blocks = G.snap_blocks;
 		unsigned int gdc = G.gdc, bpg = s->s_blocks_per_group, ipg = s->s_inodes_per_group, rsv = s->s_reserved_gdt_blocks;
 		int meta_bg = (s->s_feature_incompat & META_BG) != 0;
-		if (product_clause_only) {
-			CHECK((unsigned long long)ipg * gdc <= 0xffffffffULL && s->s_inodes_count == ipg * gdc, "s_inodes_count = groups * inodes per group, no 32-bit overflow");
-			REACH("geometry_final_product");
+		if (requested_clause_only) {
+			unsigned long long want = IN.inodes ? IN.inodes : G.snap_blocks / (bs >= 4096 ? 1 : 4096 / bs);
+			CHECK(s->s_inodes_count >= want, "at least as many inodes as requested (default: one per 4 KiB of the final size)");
+			G.req_reached = 1;
 			return;
 		}
 		CHECK(s->s_magic == 0xEF53 && s->s_log_block_size == log_bs && s->s_log_cluster_size == log_bs && G.blocksize == bs &&
@@ -193,6 +330,8 @@ static void run(const unsigned int log_bs, const unsigned int dsize, const int p
 		CHECK(s->s_inode_size == isize && s->s_first_ino == 11 && s->s_rev_level == 1, "inode size, first inode");
 		CHECK((ipg & 7) == 0 && ipg >= 8 && ipg <= MKFS_MAX_PER_BITMAP(bs) && ipg <= 65536 - bs / isize, "inodes per group: multiple of 8, one bitmap block's worth, 16-bit counters");
 		CHECK(G.ibpg == MKFS_ITABLE_BLOCKS(ipg, isize, bs), "inode table blocks = ceil(ipg * inode size / blocksize)");
+		CHECK(GI.seen && GI.eq && GI.fits, "at its assignment s_inodes_count = inodes per group * groups, and the product fits 32 bits");
+		CHECK(GI.cnt == s->s_inodes_count && GI.ipg == ipg && GI.gdc == gdc, "... and these are the final values (nothing changes them afterwards)");
 		CHECK(s->s_inodes_count >= s->s_first_ino + 1 && s->s_free_inodes_count == s->s_inodes_count, "enough inodes for the reserved ones and one more; all free");
 		CHECK(G.desc_blocks == MKFS_DESC_BLOCKS(gdc, dsize, bs) && (dsize == 32 || s->s_desc_size == dsize), "descriptor blocks = ceil(groups / descriptors per block)");
 		CHECK(rsv <= bs / 4 && ((s->s_feature_compat & RESIZE_INODE) || rsv == 0 || IN.rsv_gdt != 0), "reserved GDT blocks fit one indirect block; none without resize_inode (unless requested)");
@@ -210,19 +349,33 @@ static void run(const unsigned int log_bs, const unsigned int dsize, const int p
 		if (s->s_feature_compat & SPARSE_SUPER2)
 			CHECK(s->s_backup_bgs[0] < gdc && s->s_backup_bgs[1] < gdc && (s->s_backup_bgs[0] <= s->s_backup_bgs[1] || s->s_backup_bgs[1] == 0),
 			      "sparse_super2: backup groups exist, ordered (second may be 0 = none)");
-		if (blocks < IN.blocks) REACH("last_group_dropped");
-		if (last != bpg) REACH("short_last_group_kept");
-		if (meta_bg && !(IN.incompat & META_BG)) REACH("meta_bg_forced");
-		if (gdc == 1) REACH("one_group");
-		if (IN.inodes != 0) REACH("inodes_requested");
-		if (s->s_inodes_count < 32) REACH("tiny");
-		REACH("geometry_final");
+		if (blocks < IN.blocks) G.canary |= 1u;	/* last_group_dropped */
+		if (last != bpg) G.canary |= 2u;	/* short_last_group_kept */
+		if (meta_bg && !(IN.incompat & META_BG)) G.canary |= 128u;	/* meta_bg_forced */
+		if (gdc == 1) G.canary |= 4u;	/* one_group */
+		if (IN.inodes != 0) G.canary |= 8u;	/* inodes_requested */
+		if (s->s_inodes_count < 32) G.canary |= 16u;	/* tiny */
+		G.canary |= 32u;	/* geometry_final */
 	} else {
 		CHECK(r == EXT2_ET_TOOSMALL || r == EXT2_ET_TOO_MANY_INODES || r == EXT2_ET_INVALID_ARGUMENT || r == EXT2_ET_RES_GDT_BLOCKS ||
 		      r == EXT2_ET_UNSUPP_FEATURE || r == EXT2_ET_RO_UNSUPP_FEATURE, "refusals are the documented ones");
-		if (r == EXT2_ET_TOOSMALL) REACH("too_small");
+		if (r == EXT2_ET_TOOSMALL) G.canary |= 64u;	/* too_small */
 	}
 	REACH("end");
 }
-void h_initialize_geometry_1k(void) { run(0, 32, 0); }
-void h_initialize_geometry_1k_inodes_count(void) { run(0, 32, 1); }
+static void canaries(void)
+{
+	if (G.canary & 1u) REACH("last_group_dropped");
+	if (G.canary & 2u) REACH("short_last_group_kept");
+	if (G.canary & 4u) REACH("one_group");
+	if (G.canary & 8u) REACH("inodes_requested");
+	if (G.canary & 16u) REACH("tiny");
+	if (G.canary & 32u) REACH("geometry_final");
+	if (G.canary & 64u) REACH("too_small");
+}
+void h_initialize_geometry_1k_g256(void) { run(0, 32, 0, 256); canaries(); if (G.canary & 128u) REACH("meta_bg_forced"); }
+void h_initialize_geometry_1k(void) { run(0, 32, 0, 0); canaries(); }
+void h_initialize_geometry_4k(void) { run(2, 32, 0, 0); canaries(); }
+void h_initialize_geometry_4k_64bit(void) { run(2, 64, 0, 0); canaries(); }
+void h_initialize_geometry_1k_64bit(void) { run(0, 64, 0, 0); canaries(); }
+void h_initialize_geometry_1k_requested_inodes(void) { run(0, 32, 1, 0); if (G.req_reached) REACH("geometry_final_requested"); }
